@@ -75,6 +75,18 @@ impl Layout {
         &self.start_to_hole
     }
 
+    /// Verification hook: extents freed since the last flush (not yet reusable).
+    #[cfg(anydb_verif)]
+    pub fn pending_holes(&self) -> &BTreeMap<usize, usize> {
+        &self.pending_holes
+    }
+
+    /// Verification hook: extents reserved by a relocation in progress.
+    #[cfg(anydb_verif)]
+    pub fn start_to_reserved(&self) -> &BTreeMap<usize, usize> {
+        &self.start_to_reserved
+    }
+
     pub fn len(&self) -> usize {
         let mut len = 0;
         if let Some((start, reserved)) = self.get_last_reserved() {
